@@ -110,6 +110,9 @@ func cEval(e *cEnv, x SExpr) any {
 		return cEval(e, x.B)
 	case SQuant:
 		return cQuant(e, x, 0)
+	case SOld:
+		// plain-value functions: parameters are not modified, old(x) is x
+		return cEval(e, x.X)
 	case SSel:
 		v := cEval(e, x.X)
 		st, ok := v.(cStruct)
@@ -177,6 +180,95 @@ func cEval(e *cEnv, x SExpr) any {
 			m := arg(0).(*cMap)
 			_, ok := m.m[arg(1).(string)]
 			return ok
+		case "subset":
+			a, _ := arg(0).([]any)
+			b, _ := arg(1).([]any)
+			for _, x := range a {
+				found := false
+				for _, y := range b {
+					if cEqual(x, y) {
+						found = true
+					}
+				}
+				if !found {
+					return false
+				}
+			}
+			return true
+		case "seteq":
+			a, _ := arg(0).([]any)
+			b, _ := arg(1).([]any)
+			in := func(x any, s []any) bool {
+				for _, y := range s {
+					if cEqual(x, y) {
+						return true
+					}
+				}
+				return false
+			}
+			for _, x := range a {
+				if !in(x, b) {
+					return false
+				}
+			}
+			for _, y := range b {
+				if !in(y, a) {
+					return false
+				}
+			}
+			return true
+		case "seqeq":
+			a, _ := arg(0).([]any)
+			b, _ := arg(1).([]any)
+			if len(a) != len(b) {
+				return false
+			}
+			for i := range a {
+				if !cEqual(a[i], b[i]) {
+					return false
+				}
+			}
+			return true
+		case "index":
+			a, _ := arg(0).([]any)
+			v := arg(1)
+			for i, x := range a {
+				if cEqual(x, v) {
+					return i
+				}
+			}
+			return -1
+		case "odd":
+			n := arg(0).(int)
+			return n%2 != 0
+		case "u8", "u16", "u32", "u64":
+			n := arg(0).(int)
+			switch id.Name {
+			case "u8":
+				return ((n % 256) + 256) % 256
+			case "u16":
+				return ((n % 65536) + 65536) % 65536
+			case "u32":
+				return ((n % 4294967296) + 4294967296) % 4294967296
+			}
+			if n < 0 {
+				cfail("u64 of a negative value is outside the concrete evaluator")
+			}
+			return n
+		case "min":
+			a, b := arg(0).(int), arg(1).(int)
+			if a < b {
+				return a
+			}
+			return b
+		case "max":
+			a, b := arg(0).(int), arg(1).(int)
+			if a > b {
+				return a
+			}
+			return b
+		case "fresh", "sameref", "unchanged", "same":
+			cfail("%s is about memory identity: not decided by the concrete evaluator", id.Name)
 		case "isnil":
 			switch v := arg(0).(type) {
 			case nil:
